@@ -18,7 +18,15 @@
 //          call (re-evaluated tail of the SCHEDULE section); oracle of (a) against the
 //          connection's OWN cell, plus: the other paths give exactly the load-time connection.
 //
+//  part e  one-item re-entries: a connection made by a base record is re-entered with a record that
+//          differs in EXACTLY ONE item (direction, state, saturation table, diameter, skin, Kh, CF,
+//          r0, D-factor), in the same report step or in the next one, on symmetric cells (cube with
+//          isotropic permeability; DX=DY, PERMX=PERMY) and an anisotropic one; the targeted
+//          connection must be the one of the NEW record at the re-entry step and at later steps,
+//          the untargeted connection of the well stays bit-identical.
+//
 // Case strings (also accepted by --replay):
+//   "e <unit> <layer> <dir> <form> <mutation> <timing>"          timing 0 same report step, 1 next report step
 //   "d <unit> <dir> <shift> <path> <form>"                      path 0 load, 1 actionx, 2 replay, 3 actionx at step 1
 //   "a <unit> <cell> <dir> <cf> <kh> <di> <r0> <sk> <v>"        indices into the alphabets below (v: explicit value set)
 //   "b <unit> <cell> <dir> <cf> <kh> <di> <r0> <sk> <v> <mask>" mask bit0 CF, bit1 Kh, bit2 r0
@@ -528,6 +536,142 @@ static void replay_d(const std::string& cs) {
     run_d_batch(env, ui, dir, shift, n, path);
 }
 
+// ------------------------------------------------------------------ part e ---
+// Column (1,1) of a 2x2x3 grid: layer 1 a cube with isotropic permeability and NTG 1 (all three directions give
+// bit-identical CF/Kh/r0), layer 2 DX=DY, PERMX=PERMY, DZ and PERMZ different (X and Y identical), layer 3 anisotropic.
+static const std::vector<Cell>& e_layers() {
+    static const std::vector<Cell> l = {
+        {{20.0, 20.0, 20.0}, {100.0, 100.0, 100.0}, 1.0},
+        {{20.0, 20.0,  7.0}, {150.0, 150.0,  15.0}, 1.0},
+        {{20.0, 20.0, 11.0}, {200.0,  50.0,   5.0}, 0.6},
+    };
+    return l;
+}
+struct Rec { In in; int sat = 0; double dfac = -1; };     // sat 0: defaulted (cell's SATNUM = 1); dfac < 0: defaulted (0); dfac in s/m3
+static double dfac_unit(int ui) { static const double f[] = {si::day / 1.0, si::day / (1000.0 * si::ft * si::ft * si::ft), si::hour / 1.0e-6, si::day / 1.0}; return f[ui]; }   // Time / GasSurfaceVolume
+static std::string rec_full(const Rec& r, int ui, int k) {
+    const Unit& u = units()[ui]; const Tok t = tokens(r.in, u);
+    return " 'W' 1 1 " + std::to_string(k + 1) + " " + std::to_string(k + 1) + (r.in.state ? " SHUT " : " OPEN ") + (r.sat ? std::to_string(r.sat) : std::string("1*")) + " " +
+           t.cf + " " + t.di + " " + t.kh + " " + t.sk + " " + (r.dfac < 0 ? std::string("1*") : vf::fmt17(r.dfac / dfac_unit(ui))) + " " + std::string(1, "XYZ"[r.in.dir]) + " " + t.r0 + " /\n";
+}
+static const double E_DFAC = 1.0e-4 * 86400.0;             // 1e-4 day/sm3
+static const int E_NFORM = 5, E_NMUT = 13;
+static const char* e_mut_names[E_NMUT] = {"dir-a", "dir-b", "state", "sat-table", "diameter", "skin", "Kh-value", "Kh-default-or-zero", "CF-value", "CF-default", "r0", "D-factor", "sat-table-b"};
+static const char* e_mut_item(int m) { static const char* n[E_NMUT] = {"dir", "dir", "state", "sat-table", "diameter", "skin", "Kh", "Kh", "CF", "CF", "r0", "D-factor", "sat-table"}; return n[m]; }
+static Rec e_form(int f, int dir) {
+    Rec r; r.in.dir = dir;
+    switch (f) {
+    case 0: r.in.di = true; break;
+    case 1: r.in.di = true; r.in.kh = KH_EXP; r.in.Kh = 900.0 * si::mD; break;
+    case 2: r.in.di = true; r.in.cf = CF_EXP; r.in.CF = 12.5 * si::cP / (si::day * si::bar); break;
+    case 3: r.in.r0 = true; r.in.sk = 1; break;
+    case 4: r.in.di = true; r.in.state = 1; r.sat = 2; r.dfac = E_DFAC; break;
+    }
+    return r;
+}
+// returns false if the mutation does not apply to this record
+static bool e_mutate(Rec& r, int m) {
+    switch (m) {
+    case 0: r.in.dir = (r.in.dir + 1) % 3; return true;
+    case 1: r.in.dir = (r.in.dir + 2) % 3; return true;
+    case 2: r.in.state = !r.in.state; return true;
+    case 3: r.sat = r.sat ? 0 : 2; return true;
+    case 4: if (r.in.di) r.in.Dm = 0.3; else r.in.di = true; return true;
+    case 5: r.in.sk = r.in.sk == 0 ? 1 : r.in.sk == 1 ? 2 : 0; return true;
+    case 6: if (r.in.kh == KH_EXP) r.in.Kh *= 0.5; else { r.in.kh = KH_EXP; r.in.Kh = 900.0 * si::mD; } return true;
+    case 7: r.in.kh = r.in.kh == KH_EXP ? KH_DEF : KH_ZERO; return true;
+    case 8: if (r.in.cfE()) r.in.CF *= 2.0; else { r.in.cf = CF_EXP; r.in.CF = 12.5 * si::cP / (si::day * si::bar); } return true;
+    case 9: if (!r.in.cfE()) return false; r.in.cf = CF_DEF; return true;
+    case 10: if (r.in.r0) r.in.R0 = 5.0; else r.in.r0 = true; return true;
+    case 11: r.dfac = r.dfac < 0 ? E_DFAC : 2.0 * E_DFAC; return true;
+    case 12: if (!r.sat) return false; r.sat = 1; return true;
+    }
+    return false;
+}
+struct OE { OC oc; int sat; double dfac; };
+static std::string oe_str(const OE& o) { return oc_str(o.oc) + " dir=" + std::string(1, "XYZ"[o.oc.dir]) + " sat=" + std::to_string(o.sat) + " dfac=" + vf::fmt17(o.dfac); }
+struct BuiltE { bool ok = false; std::vector<std::vector<OE>> steps; std::string err; };
+static BuiltE build_e(const Env& env, const std::string& sched_text) {
+    BuiltE b;
+    try {
+        auto deck = g_parser->parseString(env.grid + sched_text);
+        auto sched = std::make_unique<Schedule>(deck, *env.es, g_python);
+        for (std::size_t st = 0; st < sched->size(); ++st) {
+            std::vector<OE> v;
+            for (const auto& c : sched->getWell("W", st).getConnections()) v.push_back({observe(c), c.satTableId(), c.dFactor()});
+            b.steps.push_back(v);
+        }
+        b.ok = true;
+    } catch (const std::exception& e) { b.err = std::string(e.what()).substr(0, 300); }
+    return b;
+}
+static void run_e_case(const Env& env, int ui, int k, int dir, int f, int m, int timing, bool verbose) {
+    Rec base = e_form(f, dir), next = base;
+    if (!e_mutate(next, m)) return;
+    const int ku = (k + 1) % 3;                                       // layer of the untargeted connection
+    Rec other; other.in.di = true; other.in.dir = (dir + 1) % 3;
+    const std::string cs = "e " + std::to_string(ui) + " " + std::to_string(k) + " " + std::to_string(dir) + " " + std::to_string(f) + " " + std::to_string(m) + " " + std::to_string(timing);
+    R->current(cs);
+    const std::string head = "WELSPECS\n 'W' 'G' 1 1 1* OIL /\n/\nCOMPORD\n 'W' INPUT /\n/\nCOMPDAT\n" + rec_full(base, ui, k) + rec_full(other, ui, ku) + "/\n";
+    const std::string step = "TSTEP\n 10 /\n";
+    const std::string re = "COMPDAT\n" + rec_full(next, ui, k) + "/\n";
+    const std::string text = head + (timing ? step : "") + re + step + step + "END\n";
+    const std::string rp = "{\"case\": " + vf::jstr(cs) + ", \"schedule\": " + vf::jstr(text) + "}";
+    const std::string pre = std::string("C06:reentry:change-") + e_mut_item(m) + ":";
+    R->evaluations++; R->count("e_cases"); R->count(std::string("e_change_") + e_mut_item(m));
+    const BuiltE B0 = build_e(env, head + step + step + step + "END\n");           // without the re-entry
+    const BuiltE B = build_e(env, text);
+    if (verbose) { std::fputs(text.c_str(), stderr); for (size_t st = 0; B.ok && st < B.steps.size(); ++st) for (const auto& o : B.steps[st]) std::fprintf(stderr, "step %zu: %s\n", st, oe_str(o).c_str()); }
+    if (!B0.ok || B0.steps[0].size() != 2) { R->violation(pre + "base-rejected", "base records not accepted: " + B0.err + " [" + head + "]", rp); return; }
+    if (!B.ok) { R->violation(pre + "rejected", "re-entry not accepted: " + B.err + " [" + re + "]", rp); return; }
+    const OE& tb = B0.steps[0][0]; const OE& ub = B0.steps[0][1];              // COMPORD INPUT: input order
+    const Ref r = reference(e_layers()[k], next.in);
+    const int sat_exp = next.sat ? next.sat : 1; const double df_exp = next.dfac < 0 ? 0.0 : next.dfac;
+    const bool symmetric_dir_change = (m <= 1) && (k == 0 || (k == 1 && base.in.dir != 2 && next.in.dir != 2));
+    if (symmetric_dir_change) R->count("e_direction_changes_with_bit_identical_CF_Kh_r0");
+    for (std::size_t st = timing; st < B.steps.size(); ++st) {
+        const auto& v = B.steps[st];
+        const std::string ctx = " at step " + std::to_string(st) + " (re-entry in step " + std::to_string(timing) + "), base [" + rec_full(base, ui, k) + "] re-entered as [" + rec_full(next, ui, k) + "]";
+        if (v.size() != 2 || v[0].oc.k != k || v[1].oc.k != ku) { R->violation(pre + "connection-list", "well does not hold the targeted and the untargeted connection in input order" + ctx, rp); break; }
+        const OE& t = v[0]; const OE& u = v[1];
+        auto bad = [&](const char* field, const std::string& exp) { R->violation(pre + "targeted-" + field, std::string(field) + " of the re-entered connection is not that of the new record (expected " + exp + "): " + oe_str(t) + ctx, rp); };
+        if (t.oc.dir != next.in.dir) bad("dir", std::string(1, "XYZ"[next.in.dir]));
+        if (t.oc.state != next.in.state) bad("state", std::to_string(next.in.state));
+        if (t.sat != sat_exp) bad("sat-table", std::to_string(sat_exp));
+        if (!close(t.dfac, df_exp, 1e-12) && !(t.dfac == 0 && df_exp == 0)) bad("D-factor", vf::fmt17(df_exp));
+        if (!close(t.oc.CF, r.CF, 1e-10)) bad("CF", vf::fmt17(r.CF));
+        if (!close(t.oc.Kh, r.Kh, 1e-10)) bad("Kh", vf::fmt17(r.Kh));
+        if (!close(t.oc.r0, r.r0, 1e-10)) bad("r0", vf::fmt17(r.r0));
+        if (!close(t.oc.rw, r.rw, 1e-12)) bad("rw", vf::fmt17(r.rw));
+        if (!close(t.oc.S, r.S, 1e-12) && !(t.oc.S == 0 && r.S == 0)) bad("skin", vf::fmt17(r.S));
+        if (t.oc.complnum != tb.oc.complnum) bad("complnum", std::to_string(tb.oc.complnum));
+        if (t.oc.sort != tb.oc.sort) bad("sort_value", std::to_string(tb.oc.sort));
+        if (std::memcmp(&u.oc.CF, &ub.oc.CF, sizeof(double)) != 0 || u.oc.Kh != ub.oc.Kh || u.oc.r0 != ub.oc.r0 || u.oc.rw != ub.oc.rw || u.oc.S != ub.oc.S || u.oc.state != ub.oc.state || u.oc.dir != ub.oc.dir ||
+            u.oc.complnum != ub.oc.complnum || u.oc.sort != ub.oc.sort || u.sat != ub.sat || u.dfac != ub.dfac)
+            R->violation(pre + "untargeted-changed", "the other connection of the well changes: " + oe_str(ub) + " -> " + oe_str(u) + ctx, rp);
+        char b[200]; std::snprintf(b, sizeof b, "e|%d|%d|%d|%d|%.12g|%.12g|%.12g|%.12g", t.oc.dir, t.oc.state, t.sat, (int)st, t.dfac, t.oc.CF, t.oc.Kh, t.oc.r0);
+        R->observe(std::string(b));
+    }
+    if (R->samples.size() < 6 && symmetric_dir_change && timing == 1 && f == 0 && k == dir) R->sample_str(cs + "  => " + units()[ui].name + ": " + rec_full(base, ui, k).substr(0, 60) + " ... re-entered next step as " + rec_full(next, ui, k).substr(0, 60) + " -> " + oe_str(B.steps.back()[0]));
+}
+static int e_nunits() { return R->thorough() ? 4 : 2; }
+static void part_e() {
+    for (int ui = 0; ui < e_nunits(); ++ui) {
+        std::optional<Env> env;
+        for (int k = 0; k < 3; ++k) for (int dir = 0; dir < 3; ++dir) for (int f = 0; f < E_NFORM; ++f) for (int m = 0; m < E_NMUT; ++m) for (int timing = 0; timing < 2; ++timing) {
+            if (!R->mine()) continue;
+            if (R->timed_out()) return;
+            if (!env) env.emplace(make_env(units()[ui], 2, 2, e_layers(), 4));
+            run_e_case(*env, ui, k, dir, f, m, timing, false);
+        }
+    }
+}
+static void replay_e(const std::string& cs) {
+    std::istringstream ss(cs); std::string part; int ui, k, dir, f, m, timing; ss >> part >> ui >> k >> dir >> f >> m >> timing;
+    Env env = make_env(units()[ui], 2, 2, e_layers(), 4);
+    run_e_case(env, ui, k, dir, f, m, timing, true);
+}
+
 // ------------------------------------------------------------------ part c ---
 // One well 'W' with head (1,1) in a 2x2x3 grid; every connection lies in column (1,1): A = layer 1, C = layer 2, B = layer 3.
 static const std::vector<Cell>& layers() {
@@ -800,6 +944,9 @@ int main(int argc, char** argv) {
                "d: input path: the record forms of a (one well per record) on a 4x4x2 grid with pairwise different DX/DY/DZ/PERMX/Y/Z/NTG, wells in the 16 off-diagonal cells (i,j,k),(j,i,k) rotated over the forms by " + std::to_string(d_shifts().size()) +
                " shifts, x {METRIC,FIELD,LAB,PVT-M}, delivered at load time / inside an ACTIONX body applied with Schedule::applyAction at step 0" + (run.thorough() ? " and at step 1" : "") + " / at load time in the report step after an applied action (re-evaluated tail); "
                "oracle of a against the connection's own cell plus own global index and centre depth, and the non-load paths give bit-exactly the load-time connection (CF, Kh, r0, rw, skin, depth, global index, ijk, complnum, sort_value, state, dir); "
+               "e: one-item re-entries: base record (5 forms x dir{X,Y,Z}) in a cube/isotropic cell, a DX=DY PERMX=PERMY cell and an anisotropic cell, plus an untargeted connection in the next layer (COMPORD INPUT), re-entered in the same or the next report step with exactly one item changed "
+               "(13 mutations: dir to each other direction, OPEN/SHUT, sat table 1*<->2 and 2->1, diameter, skin, Kh value, Kh 1*/0, CF value, CF 1*, r0, D-factor) x " + std::to_string(e_nunits()) + " unit systems; at the re-entry step and both later steps the targeted connection equals the reference of the NEW record "
+               "(dir, state, sat table, D-factor, CF/Kh/r0 by the Peaceman oracle for the new direction, rw, skin; complnum and sort_value kept) and the untargeted one is bit-identical to the run without the re-entry; "
                "c: all histories over " + std::to_string(g_ev.size()) + " events on one well, regimes COMPORD TRACK/INPUT x unit system with depth {" + depths + "}; per transition: frame condition on the library's own parent state (untargeted connections keep relative order, complnum, sort_value, CF, Kh, r0, rw, skin, state bit-exactly) "
                "and agreement of the whole connection list with a reference model (new CF by the Peaceman oracle, CF x factor, whole-well WPIMULT = last record of the report step applied at the end of the step, cumulative across steps)";
     run.assumptions = {
@@ -813,11 +960,12 @@ int main(int argc, char** argv) {
         "values outside the alphabets (other explicit CF/Kh/r0/diameter values, D-factor, saturation table item) are not covered"};
 
     if (!run.replay_path.empty()) {
-        if (run.replay_path[0] == 'c') replay_c(run.replay_path); else if (run.replay_path[0] == 'd') replay_d(run.replay_path); else replay_ab(run.replay_path);
+        if (run.replay_path[0] == 'c') replay_c(run.replay_path); else if (run.replay_path[0] == 'd') replay_d(run.replay_path); else if (run.replay_path[0] == 'e') replay_e(run.replay_path); else replay_ab(run.replay_path);
         return run.finish();
     }
     parts_ab();
     part_d();
+    part_e();
     part_c();
     run.states = run.hashes.size();
     return run.finish();
